@@ -154,6 +154,7 @@ def run(program, rep, tier, sleep_only=False):
               'dt is not modified inside process()',
               'process() rebinds its dt parameter', line=f.node.lineno)
     # ---- paths of process ----------------------------------------------------
+    c09._mark_loop_tests(f)
     w = Walker(program, _D(program))
     exits = w.run(f, cp)
     rep.count('paths', len(exits))
@@ -265,7 +266,8 @@ def run(program, rep, tier, sleep_only=False):
                              'has exactly elapsed wakes a frame late, or a '
                              'later deadline is woken first')
                 if t == f'{AQ}[0] is None' and isinstance(
-                        e.node, ast.Compare):
+                        e.node, ast.Compare) and getattr(
+                            e.node, '_is_loop_test', False):
                     if in_active:
                         cnt['iter'] += 1
                         if it_next > 1:
